@@ -1,6 +1,9 @@
-(** C11 - whitespace and redundant parentheses never change the parse (PARTIAL: the tokenizer-level facts proved here;
-    invariance of the whole parse under re-layout and re-parenthesisation is carried by the correspondence). *)
-From EE Require Import Chars OpTable Decimal Token Lexer Ast Parser Api Utf8 LexerSpec LexerTiling ParserSteps.
+(** C11 - whitespace and redundant parentheses never change the parse.
+    Whitespace: a theorem for every input and every sane operator table (Lemmas/LexerWs.v): changing the gaps between tokens
+    leaves the token stream, hence the parse, unchanged. Parentheses: transparency of one level proved here for every context
+    (C11_parens_transparent), minimal-parenthesis renderings by C02_round_trip; arbitrary redundant nesting inside a larger
+    program is carried by the correspondence. *)
+From EE Require Import Chars OpTable Decimal Token Lexer Ast Parser Api Utf8 LexerSpec LexerTiling LexerWs ParserSteps ImplTable.
 Open Scope N_scope.
 
 (* tokens are separated by whitespace only, so what lies between two tokens carries no information: the tiling theorem *)
@@ -66,3 +69,40 @@ Example C11_example :
   api_parse tbl [97; 43; 40; 98; 41] = api_parse tbl [32; 97; 9; 43; 13; 10; 40; 40; 32; 98; 41; 32; 41; 10].
 Proof. vm_compute. reflexivity. Qed.
 Print Assumptions C11_example.
+
+(* WHITESPACE NEVER CHANGES THE PARSE. [Adj tbl s toks s']: s' is s with the gaps around its tokens [toks] changed - where
+   there was whitespace, any non-empty whitespace; where two tokens touched, any whitespace or none; before the first and after
+   the last token likewise; token bodies untouched; names (and true/false) are not operator words. Then s' parses exactly as s,
+   for every table whose operators contain no whitespace and whose word operators consist of name characters. *)
+Theorem C11_whitespace_invariance : forall tbl s toks s', tbl_lex_okb tbl = true ->
+  lex tbl s = (toks, TmEof) -> Adj tbl s toks s' -> api_parse tbl s' = api_parse tbl s.
+Proof. exact parse_respace. Qed.
+Print Assumptions C11_whitespace_invariance.
+
+(* the same for the tokens themselves: kinds and payloads are unchanged, only the offsets move *)
+Theorem C11_whitespace_tokens : forall tbl s toks s', tbl_lex_okb tbl = true ->
+  lex tbl s = (toks, TmEof) -> Adj tbl s toks s' ->
+  exists toks', lex tbl s' = (toks', TmEof) /\ map tk toks' = map tk toks.
+Proof. intros tbl s toks s' T H A. destruct (tbl_lex_ok tbl T) as [T1 T2]. exact (lex_respace tbl T1 T2 s toks s' H A). Qed.
+Print Assumptions C11_whitespace_tokens.
+
+(* the table dumped from the implementation on this run meets the condition *)
+Theorem C11_builtin_table_lex_ok : tbl_lex_okb builtin_table = true.
+Proof. vm_compute. reflexivity. Qed.
+Print Assumptions C11_builtin_table_lex_ok.
+
+(* non-vacuity: `a+1` re-spaced to ` a +  1 ` is an instance *)
+Example C11_whitespace_example :
+  exists toks, lex builtin_table [97; 43; 49] = (toks, TmEof) /\
+               Adj builtin_table [97; 43; 49] toks [32; 97; 32; 43; 9; 10; 49; 32].
+Proof.
+  eexists. split; [vm_compute; reflexivity|].
+  apply (Adj_cons builtin_table [] [32] [97] [43; 49] [32; 43; 9; 10; 49; 32]);
+    [reflexivity | reflexivity | right; discriminate | reflexivity | reflexivity | intros _; reflexivity |].
+  apply (Adj_cons builtin_table [] [32] [43] [49] [9; 10; 49; 32]);
+    [reflexivity | reflexivity | right; discriminate | reflexivity | reflexivity | intros X; discriminate X |].
+  apply (Adj_cons builtin_table [] [9; 10] [49] [] [32]);
+    [reflexivity | reflexivity | right; discriminate | reflexivity | reflexivity | intros X; discriminate X |].
+  apply Adj_nil; reflexivity.
+Qed.
+Print Assumptions C11_whitespace_example.
